@@ -63,7 +63,7 @@ def run_programs(chk, programs, cmp_msg=False, repeat=1, fuel=None, tag=None, st
         if rc != 0:
             raise pv.BuildError("correspondence shard %s failed to evaluate:\n%s" % (name, out[-3000:]))
         flat = " ".join(out.split())
-        for m in re.finditer(r"\((\d+), (\d+)\)", flat):
+        for m in re.finditer(r"\(\s*(\d+),\s*(\d+)\)", flat):
             results[int(m.group(1))]["verdict"] = names[int(m.group(2))]
     bad = [i for i in todo if results[i]["verdict"] == "disagree"]
     missing = [i for i in todo if results[i]["verdict"] is None]
@@ -87,3 +87,16 @@ def summarize(chk, results):
     for r in results:
         hist[r["verdict"]] = hist.get(r["verdict"], 0) + 1
     return hist
+
+
+def debug(progs, fuel="default_fuel"):
+    """Development helper: print what the model and the implementation do on progs."""
+    world.build_world()
+    reps = pv.harness("eval", [{"src": s, "coq": True} for s in progs])
+    rows = ["(%d, %s, %s)" % (i, r["coq"], impl_obs(r)) for i, r in enumerate(reps) if r.get("coq")]
+    body = (PRELUDE + "Definition cases : list case := [\n" + ";\n".join(rows) + "].\n"
+            "Definition D := Eval vm_compute in map (fun c => match c with (i,p,io) => (i, run_obs W init0 %s p) end) cases.\nPrint D.\n" % fuel)
+    rc, out = pv.coq_eval("dbg", body)
+    print(out[-6000:])
+    for i, r in enumerate(reps):
+        print(i, r["kind"], r.get("repr"), r.get("errk"), r.get("errmsg"), repr(r.get("out")))
